@@ -153,22 +153,73 @@ def instantiate_quantifiers(fs):
     return out, complete
 
 
-def build_query(ob, str_axioms):
-    """-> (full, qf): SMT-LIB2 texts of  hyps /\\ axioms /\\ not goal  (unsat == obligation holds).
-    `qf` has the universal hypotheses replaced by ground instances (sound for unsat; sat is a *candidate* model)."""
+def _all_formulas(ob, str_axioms):
     fs = list(ob.hyps) + [_neg(ob.goal)]
     extra = prelude.instantiate(fs)
-    allf = fs + list(str_axioms) + extra
+    return fs + list(str_axioms) + extra
+
+
+def build_full(ob, str_axioms):
+    """SMT-LIB2 text of  hyps /\\ axioms /\\ not goal  (unsat == obligation holds)"""
     s = z3.Solver()
-    for f in allf:
+    for f in _all_formulas(ob, str_axioms):
         s.add(f)
-    full = s.to_smt2()
+    return s.to_smt2()
+
+
+def build_inst(ob, str_axioms):
+    """the same query with the universal hypotheses over uninterpreted sorts replaced by ground instances
+    (sound for unsat; sat is a *candidate* counter-model).  Returns (smt2, complete)."""
+    allf = _all_formulas(ob, str_axioms)
     qf_fs, complete = instantiate_quantifiers(allf)
     extra2 = prelude.instantiate(qf_fs)
     s2 = z3.Solver()
     for f in qf_fs + extra2:
         s2.add(f)
-    return (full, s2.to_smt2(), complete)
+    return s2.to_smt2(), complete
+
+
+def build_query(ob, str_axioms):
+    full = build_full(ob, str_axioms)
+    inst, complete = build_inst(ob, str_axioms)
+    return (full, inst, complete)
+
+
+def decide(ob, str_axioms, timeout_ms=20000, use_cvc5=True, name=None):
+    """-> (name, status, backend, seconds, model, tried, smt2_full)"""
+    name = name or ob.name
+    tried = []
+    full = build_full(ob, str_axioms)
+    r = _solve_z3(full, min(4000, timeout_ms))
+    tried.append(("z3", r[0], r[1] if isinstance(r[1], float) else 0.0))
+    if r[0] == "unsat":
+        return (name, "unsat", "z3", r[1], None, tried, full)
+    if r[0] == "sat":
+        return (name, "sat", "z3", r[1], r[2], tried, full)
+    inst, complete = build_inst(ob, str_axioms)
+    rq = ("skipped", 0.0, None)
+    if len(inst) < 3000000:
+        rq = _solve_z3(inst, min(timeout_ms, 10000))
+        tried.append(("z3-inst", rq[0], rq[1] if isinstance(rq[1], float) else 0.0))
+        if rq[0] == "unsat":
+            return (name, "unsat", "z3-inst", rq[1], None, tried, full)
+    r = _solve_z3(full, timeout_ms)
+    tried.append(("z3", r[0], r[1] if isinstance(r[1], float) else 0.0))
+    if r[0] == "unsat":
+        return (name, "unsat", "z3", r[1], None, tried, full)
+    if r[0] == "sat":
+        return (name, "sat", "z3", r[1], r[2], tried, full)
+    if use_cvc5:
+        r2 = _solve_cvc5(full, CVC5_TIMEOUT_S)
+        tried.append(("cvc5", r2[0], r2[1]))
+        if r2[0] == "unsat":
+            return (name, "unsat", "cvc5", r2[1], None, tried, full)
+        if r2[0] == "sat" and rq[0] != "sat":
+            return (name, "sat", "cvc5", r2[1], None, tried, full)
+    if rq[0] == "sat":
+        # instantiated query has a model, the full query is undecided: a candidate counter-model
+        return (name, "sat", "z3-inst" if complete else "z3-inst(candidate)", rq[1], rq[2], tried, full)
+    return (name, "unknown", "z3", r[1] if isinstance(r[1], float) else 0.0, r[2], tried, full)
 
 
 def _solve_z3(smt2, timeout_ms):
